@@ -252,6 +252,7 @@ func replaySchedule(c *core.Case, in *behaviourIn) ([]core.Violation, bool) {
 	isTile := func(p sched.Pending) bool { return strings.HasPrefix(p.File, "tile/") }
 	i := 0
 	retries := 0
+	lastExtra := -1
 	deadline := time.Now().Add(20 * time.Second)
 	for {
 		select {
@@ -305,6 +306,33 @@ func replaySchedule(c *core.Case, in *behaviourIn) ([]core.Violation, bool) {
 		if released {
 			continue
 		}
+		// a goroutine waiting at a hook point that the schedule does not have next for its thread: the code has a
+		// yield point where the model has none (or in another place).  Hook points do nothing visible, so the
+		// goroutine is let through at once - the step happens as early as it can - and the drift is noted.
+		for _, p := range pend {
+			if p.Op != "Hook" {
+				continue
+			}
+			expected := false
+			for j := i; j < len(items); j++ {
+				if items[j].client == p.Client {
+					expected = items[j].op == "Hook" && items[j].file == p.File
+					break
+				}
+			}
+			if !expected {
+				drift++
+				if driftNote == "" {
+					driftNote = fmt.Sprintf("schedule step %d: %s waits at a hook point the schedule does not have next for it", i, p)
+				}
+				s.Release(p.ID)
+				released = true
+				break
+			}
+		}
+		if released {
+			continue
+		}
 		pick := -1
 		if i < len(items) {
 			for _, p := range pend {
@@ -325,17 +353,39 @@ func replaySchedule(c *core.Case, in *behaviourIn) ([]core.Violation, bool) {
 		}
 		retries = 0
 		if pick < 0 {
-			// the code is somewhere the model did not predict: note the drift, continue round-robin
+			// the code is somewhere the model did not predict: note the drift, and keep as close to the schedule as
+			// possible: the thread the schedule wants to move is moved (an extra step of that thread); if it still
+			// does not arrive at the wanted step, the step is skipped (the thread has taken it earlier, or never will)
 			drift++
 			if driftNote == "" {
 				want := "<end of schedule>"
 				if i < len(items) {
 					want = items[i].client + ":" + items[i].op + ":" + items[i].file
-					i++
 				}
 				driftNote = fmt.Sprintf("schedule step %d wants %s, pending %v", i, want, pend)
 			}
-			pick = pend[0].ID
+			if i < len(items) {
+				same := -1
+				for _, p := range pend {
+					if p.Client == items[i].client {
+						same = p.ID
+					}
+				}
+				if items[i].op == "Hook" {
+					// a yield point of the model that the code does not have here (or took earlier): skip it
+					i++
+					continue
+				}
+				if same >= 0 && lastExtra != i {
+					lastExtra = i
+					pick = same
+				} else {
+					i++
+					continue
+				}
+			} else {
+				pick = pend[0].ID
+			}
 		}
 		if debugSched {
 			for _, p := range pend {
